@@ -153,10 +153,91 @@ theorem widthy_sound : ∀ s ∈ R.widthy, Sound s := by
   · exact ashr_zext_sound
   · exact sub_addN_sound
 
+theorem iteLits_eval (env : Env) (p : P) (b : Bool) (hw : 0 < p.w) (hc : eval env p.c = .bool b) :
+    eval env (R.iteLits p) = Val.ofBV (BitVec.ofNat p.w (if b then p.c1 else p.c2)) := by
+  simp only [R.iteLits, eval_app, evalList_cons, evalList_nil, applyOp, hc, eval_bvv env _ p.w hw]
+  cases b <;> simp
+
+theorem ofNat_ne_of_mod_ne {w a b : Nat} (h : a % 2 ^ w ≠ b % 2 ^ w) : (BitVec.ofNat w a == BitVec.ofNat w b) = false := by
+  apply beq_eq_false_iff_ne.mpr
+  intro hc
+  have := congrArg BitVec.toNat hc
+  simp only [BitVec.toNat_ofNat] at this
+  exact h this
+
+theorem iteCmp_aux (env : Env) (p : P) (hs : R.litsDiffer p = true) (k : Nat) (hk : k = p.c1 ∨ k = p.c2)
+    (hwt : valEq (eval env (R.iteLits p)) (eval env (.bvv k p.w)) ≠ .err) :
+    ∃ b, eval env p.c = .bool b ∧ 0 < p.w ∧
+      valEq (eval env (R.iteLits p)) (eval env (.bvv k p.w)) = .bool (if k = p.c1 then b else if k = p.c2 then !b else false) := by
+  by_cases hw : 0 < p.w
+  · rcases val_view (eval env p.c) (eval_wf env p.c) with hx | ⟨b, hx⟩ | ⟨wx, X, hx, hwx⟩
+    · simp [R.iteLits, eval_app, evalList_cons, evalList_nil, applyOp, hx] at hwt
+    · refine ⟨b, hx, hw, ?_⟩
+      simp only [R.litsDiffer, decide_eq_true_eq] at hs
+      rw [iteLits_eval env p b hw hx, eval_bvv env k p.w hw, valEq_ofBV _ _ hw]
+      rcases hk with rfl | rfl
+      · cases b
+        · simp [ofNat_ne_of_mod_ne (Ne.symm hs)]
+        · simp
+      · cases b
+        · by_cases h12 : p.c2 = p.c1
+          · rw [h12] at hs; exact absurd rfl hs
+          · simp [h12]
+        · by_cases h12 : p.c2 = p.c1
+          · rw [h12] at hs; exact absurd rfl hs
+          · simp [h12, ofNat_ne_of_mod_ne hs]
+    · simp [R.iteLits, eval_app, evalList_cons, evalList_nil, applyOp, hx] at hwt
+  · simp [eval_bvv_err env k p.w hw] at hwt
+
+theorem eq_ite_then_sound : Sound R.eq_ite_then := by
+  intro p env hs hwt
+  simp only [R.eq_ite_then, eval_app, evalList_cons, evalList_nil, applyOp] at hwt ⊢
+  obtain ⟨b, hc, _, hv⟩ := iteCmp_aux env p hs p.c1 (Or.inl rfl) hwt
+  rw [hv, hc]; simp
+
+theorem eq_ite_else_sound : Sound R.eq_ite_else := by
+  intro p env hs hwt
+  simp only [R.eq_ite_else, eval_app, evalList_cons, evalList_nil, applyOp] at hwt ⊢
+  obtain ⟨b, hc, _, hv⟩ := iteCmp_aux env p hs p.c2 (Or.inr rfl) hwt
+  rw [hv, hc]
+  by_cases h12 : p.c2 = p.c1
+  · simp only [R.eq_ite_else, R.ne_ite_else, R.litsDiffer, decide_eq_true_eq] at hs; rw [h12] at hs; exact absurd rfl hs
+  · simp [h12]
+
+theorem ne_ite_else_sound : Sound R.ne_ite_else := by
+  intro p env hs hwt
+  simp only [R.ne_ite_else, eval_app, evalList_cons, evalList_nil, applyOp] at hwt ⊢
+  have hwt' : valEq (eval env (R.iteLits p)) (eval env (.bvv p.c2 p.w)) ≠ .err := by
+    intro h; rw [h] at hwt; simp at hwt
+  obtain ⟨b, hc, _, hv⟩ := iteCmp_aux env p hs p.c2 (Or.inr rfl) hwt'
+  rw [hv, hc]
+  by_cases h12 : p.c2 = p.c1
+  · simp only [R.eq_ite_else, R.ne_ite_else, R.litsDiffer, decide_eq_true_eq] at hs; rw [h12] at hs; exact absurd rfl hs
+  · simp [h12]
+
+theorem ne_ite_then_sound : Sound R.ne_ite_then := by
+  intro p env hs hwt
+  simp only [R.ne_ite_then, eval_app, evalList_cons, evalList_nil, applyOp] at hwt ⊢
+  have hwt' : valEq (eval env (R.iteLits p)) (eval env (.bvv p.c1 p.w)) ≠ .err := by
+    intro h; rw [h] at hwt; simp at hwt
+  obtain ⟨b, hc, _, hv⟩ := iteCmp_aux env p hs p.c1 (Or.inl rfl) hwt'
+  rw [hv, hc]; simp
+
+theorem iteCmp_sound : ∀ s ∈ R.iteCmp, Sound s := by
+  intro s hs
+  simp only [R.iteCmp, List.mem_cons, List.mem_nil_iff, or_false] at hs
+  rcases hs with h | h | h | h <;> subst h
+  · exact eq_ite_then_sound
+  · exact eq_ite_else_sound
+  · exact ne_ite_else_sound
+  · exact ne_ite_then_sound
+
 theorem all_sound : ∀ s ∈ R.all, Sound s := by
   intro s hs
   rcases List.mem_append.mp hs with h | h
-  · exact base_sound s h
-  · exact widthy_sound s h
+  · rcases List.mem_append.mp h with h | h
+    · exact base_sound s h
+    · exact widthy_sound s h
+  · exact iteCmp_sound s h
 
 end Claripy.AST
